@@ -1,1 +1,60 @@
-fn main(){}
+//! mon_engine — monitors for C07 C08 C09 C10 C11 C16 C18 (engine-level properties).
+
+mod c07;
+mod c08;
+mod c09;
+mod c10;
+mod c11;
+mod c16;
+mod c18;
+mod common;
+mod session;
+mod sessions;
+
+use monlib::{json, Args, Report};
+use refchess::gen;
+
+fn main() {
+    let args = Args::parse();
+    monlib::quiet_panics();
+    let prop = args.cmd.clone();
+    let mut rep = Report::new(&prop.to_uppercase());
+    if let Some(path) = &args.replay {
+        let case = monlib::read_replay(path);
+        let case = if case.get("case").is_some() { case["case"].clone() } else { case };
+        match prop.as_str() {
+            "c07" => c07::replay(&case, &mut rep),
+            "c16" => c16::replay(&case, &mut rep),
+            "c08" => c08::replay(&case, &mut rep),
+            "c09" => c09::replay(&case, &mut rep),
+            "c10" => c10::replay(&case, &mut rep),
+            "c11" => c11::replay(&case, &mut rep),
+            "c18" => c18::replay(&case, &mut rep),
+            _ => panic!("unknown"),
+        }
+        println!("replay: {} violation(s)", rep.violation_count);
+        for v in &rep.violations { println!("  {} :: {}", v.sig, v.detail); }
+        std::process::exit(if rep.violation_count > 0 { 1 } else { 0 });
+    }
+    match prop.as_str() {
+        "c07" => c07::run(&args, &mut rep),
+        "c16" => c16::run(&args, &mut rep),
+        "c08" => c08::run(&args, &mut rep),
+        "c09" => c09::run(&args, &mut rep),
+        "c10" => c10::run(&args, &mut rep),
+        "c11" => c11::run(&args, &mut rep),
+        "c18" => {
+            let mut rng = gen::rng(args.seed, args.shard, 18);
+            let n = args.budget(1_600_000, 32_000_000) / args.nshards.max(1);
+            for _ in 0..n { c18::random_case(&mut rng, &mut rep); }
+        }
+        other => {
+            eprintln!("unknown monitor {:?}", other);
+            std::process::exit(2);
+        }
+    }
+    rep.extra.insert("seed".into(), json!(args.seed));
+    rep.finish(&args);
+    // the in-process engine threads are joined by Drop; make sure we leave
+    std::process::exit(0);
+}
